@@ -8,39 +8,42 @@ case analysis).  Tie to the code: `Drv/C24` runs `respond` and the harness sends
 request to a live in-process server and compares status and body shape.
 
 **Claimed as partial.**  "The server never dies / every request is answered" is established
-by the live runs only (hyper/axum/tokio are outside the model).  Places where the unchanged
-code does *not* satisfy the property's shape requirement are mirrored in the model and
-excluded from the `_partial` theorems by an explicit decidable hypothesis; each has a
-negative witness below.  Reproduced on the real server by the harness (known findings):
+by the live runs only (hyper/axum/tokio are outside the model).
 
-* unknown path → axum's fallback `404` with an **empty** body  (`Route.unknownPath`);
-* registered path, other method → `405` with an **empty** body (`Route.wrongMethod`);
-* a body that exceeds the limit *while streaming* (chunked, no `Content-Length`) is answered
-  `400` (`invalid_request` / `read_body`) instead of `413`.
+State of the defects found by this check:
 
-Read off the code but **not reproduced** (no request is known that makes the library panic
-under `/delete`; the branch of the model is therefore not covered by the correspondence):
+* *repaired in /repo (378f311)*: unknown path → `404` and registered path with another method
+  → `405` used to carry an **empty** body.  `respond` models the repaired service (error body
+  for both), `respond_wellformed_partial` no longer excludes them and
+  `respond_wellformed_routed` is the full statement for every route except `/delete`;
+  `legacy_witness_unknown_path` / `legacy_witness_wrong_method` keep the original defect as
+  kernel-checked documentation over `respondLegacy`.
+* *still open*: a body that exceeds the limit *while streaming* (chunked, no `Content-Length`)
+  is answered `400` (`invalid_request` / `read_body`) instead of `413`
+  (`witness_streamed_oversize_json`, `witness_streamed_oversize_ndjson`; `oversize_413_partial`
+  covers the declared case only).
+* *still open*: `/delete` is the only write handler that does not use `spawn_blocking`; a panic
+  of the library there unwinds the connection task and the connection ends without a response
+  (`witness_delete_panic`; the only case `excluded` still excludes).  Reproduced on the real
+  server with a storage panic injected through the `searchlite_verif` `FsStorage` hook: `/add`,
+  `/bulk`, `/commit`, `/search`, `/refresh`, `/compact` answer `500 *_join`, `/delete` answers
+  nothing.
 
-* a panic under `/delete` (the only write handler that does not use `spawn_blocking`) would
-  unwind the connection task and end the connection without a response.
-
-Full statement (false of the unchanged code, see the witnesses):
+Full statement (false of the code, see the witnesses):
 `theorem respond_wellformed (r) (f) : wellFormed (respond r f) = true` and
 `theorem oversize_413 : (declared ∨ streamed oversize) → (respond r f).status = 413`.
 -/
 namespace SL.Http
 
-/-- the requests on which the unchanged code is outside the property (the hypothesis of the
-`_partial` theorems is the negation of this) -/
+/-- the requests on which the code is outside the property (the hypothesis of
+`respond_wellformed_partial` is the negation of this): only a panic of the library under
+`/delete`, once payload and ids are fine and the index is there -/
 def excluded (r : Route) (f : Facts) : Bool :=
   if f.declaredOversize then false
   else match r with
-    | .unknownPath => true
-    | .wrongMethod _ => true
     | .hit .delete =>
-      -- the panic is reached: payload and ids fine, index there
       f.payload == .ok && !f.inputBad && f.idx == .ready && f.core == .panic
-    | .hit _ => false
+    | _ => false
 
 /-! ### every response is one of finitely many constants -/
 
@@ -53,7 +56,7 @@ def errLeaves : List Resp :=
    errResp 400 .deleteFailed, errResp 500 .commitJoin, errResp 500 .commitFailed,
    errResp 500 .refreshJoin, errResp 500 .refreshFailed, errResp 500 .compactJoin,
    errResp 500 .compactFailed, errResp 500 .searchJoin, errResp 400 .searchFailed,
-   errResp 400 .invalidLimit]
+   errResp 400 .invalidLimit, errResp 404 .notFound, errResp 405 .methodNotAllowed]
 
 section ladder
 set_option linter.unusedSectionVars false
@@ -184,10 +187,11 @@ end ladder
 
 theorem errLeaves_wellFormed : ∀ x ∈ errLeaves, wellFormed x = true := by decide
 
-/-- **C24, shape (partial).**  Every request that is routed to a handler (or stopped by the
-body-limit layer) gets either a 2xx response with the endpoint's JSON or a non-2xx response
-whose body is `{"error":{"type","reason"}}` — for every endpoint and every combination of
-facts, except the excluded cases listed in the header. -/
+/-- **C24, shape (partial: everything but a library panic under `/delete`).**  Every request
+— routed to a handler, stopped by the body-limit layer, sent to an unknown path or with a
+wrong method — gets either a 2xx response with the endpoint's JSON or a non-2xx response
+whose body is `{"error":{"type","reason"}}`, for every endpoint and every combination of
+facts. -/
 theorem respond_wellformed_partial (r : Route) (f : Facts) (hx : excluded r f = false) :
     wellFormed (respond r f) = true := by
   unfold respond
@@ -196,13 +200,42 @@ theorem respond_wellformed_partial (r : Route) (f : Facts) (hx : excluded r f = 
   | false =>
     simp only [Bool.false_eq_true, if_false]
     cases r with
-    | unknownPath => simp [excluded, hd] at hx
-    | wrongMethod e => simp [excluded, hd] at hx
+    | unknownPath => simp [wellFormed, errResp]
+    | wrongMethod e => simp [wellFormed, errResp]
     | hit e =>
       apply handler_leaf (fun x => wellFormed x = true) f (by decide) errLeaves_wellFormed e
       intro he hp hb hi hc
       subst he
       simp [excluded, hd, hp, hb, hi, hc] at hx
+
+/-- **C24, shape, full statement for every route other than `/delete`** (no hypothesis on the
+facts): unknown paths, wrong methods and all other endpoints, whatever the core does -/
+theorem respond_wellformed_routed (r : Route) (f : Facts) (hr : r ≠ .hit .delete) :
+    wellFormed (respond r f) = true := by
+  apply respond_wellformed_partial
+  unfold excluded
+  split
+  · rfl
+  · cases r with
+    | unknownPath => rfl
+    | wrongMethod e => rfl
+    | hit e => cases e <;> first | rfl | exact absurd rfl hr
+
+/-- unknown paths and wrong methods: 404 / 405 with the error body, whatever the facts -/
+theorem unrouted_error_body (f : Facts) (hov : f.declaredOversize = false) (e : Endpoint) :
+    respond .unknownPath f = errResp 404 .notFound ∧
+    respond (.wrongMethod e) f = errResp 405 .methodNotAllowed := by
+  simp [respond, hov]
+
+/-- the repair changed nothing else: on registered routes and under the body-limit layer the
+repaired and the original service coincide -/
+theorem respond_eq_legacy (r : Route) (f : Facts)
+    (h : f.declaredOversize = true ∨ ∃ e, r = .hit e) :
+    respond r f = respondLegacy r f := by
+  unfold respond respondLegacy
+  rcases h with h | ⟨e, rfl⟩
+  · simp [h]
+  · rfl
 
 /-- the facts under which endpoint `e` answers 2xx -/
 def happy (e : Endpoint) (f : Facts) : Bool :=
@@ -386,23 +419,24 @@ theorem status_range (r : Route) (f : Facts) :
   split
   · decide
   · cases r with
-    | unknownPath => simp
-    | wrongMethod e => simp
+    | unknownPath => simp [errResp]
+    | wrongMethod e => simp [errResp]
     | hit e =>
       exact handler_leaf (fun x => x.status ∈ [0, 200, 400, 404, 405, 409, 413, 500, 504]) f
         (by decide) (by decide) e (fun _ _ _ _ _ => by decide)
 
-/-! ### negative witnesses (the unchanged code is outside the property here) -/
+/-! ### negative witnesses (where the code is, or was before its repair, outside the property) -/
 
 def plain : Facts :=
   { declaredOversize := false, payload := .ok, addBody := .docs, inputBad := false,
     manifestExists := true, idx := .ready, writerErr := false, core := .ok }
 
-/-- unknown path: 404 with an empty body -/
-theorem witness_unknown_path : wellFormed (respond .unknownPath plain) = false := by decide
+/-- before 378f311 — unknown path: 404 with an empty body -/
+theorem legacy_witness_unknown_path : wellFormed (respondLegacy .unknownPath plain) = false := by decide
 
-/-- wrong method on a registered path: 405 with an empty body -/
-theorem witness_wrong_method : wellFormed (respond (.wrongMethod .search) plain) = false := by decide
+/-- before 378f311 — wrong method on a registered path: 405 with an empty body -/
+theorem legacy_witness_wrong_method :
+    wellFormed (respondLegacy (.wrongMethod .search) plain) = false := by decide
 
 /-- a body that outgrows the limit while streaming is answered 400, not 413 -/
 theorem witness_streamed_oversize_json :
@@ -420,6 +454,8 @@ theorem witness_delete_panic :
 example : excluded (.hit .search) { plain with core := .panic } = false ∧
     respond (.hit .search) { plain with core := .panic } = errResp 500 .searchJoin := by decide
 
+example : respond .unknownPath plain = errResp 404 .notFound ∧
+    respond (.wrongMethod .healthz) plain = errResp 405 .methodNotAllowed := by decide
 example : respond (.hit .commit) { plain with idx := .missing } = errResp 404 .indexMissing := by decide
 example : respond (.hit .init) plain = errResp 409 .indexExists := by decide
 example : respond .unknownPath { plain with declaredOversize := true } = errResp 413 .bodyTooLarge := by decide
